@@ -293,7 +293,8 @@ def job_history(args: dict) -> dict:
             note_kernels(r["log"])
         elif k in ("transform", "apply_mask", "body_coil"):
             # the data pipeline's ways into the generator
-            rec["call"] = RC.run_call(insts[op["inst"]], None, False, None, thunk=_consumer_thunk(op, insts[op["inst"]]))
+            rec["call"] = RC.run_call(insts[op["inst"]], None, False, None, forced=_forced(op),
+                                      thunk=_consumer_thunk(op, insts[op["inst"]]))
             note_kernels(rec["call"]["log"])
         elif k == "loader":
             try:
@@ -511,8 +512,16 @@ def make_history(conf: dict, seedkind: str, rng, idx: int, kseed=None) -> dict:
     ops.append({"op": "call", "inst": obs, "shape": shape, "acs": first_acs, "seed": seed})
     observed.append(len(ops) - 1)
     if kseed is not None:
+        # (the draws inside DataLoader worker processes cannot be forced: no loader op in these histories)
+        drop = [i for i, o in enumerate(ops) if o["op"] == "loader"]
+        for i in reversed(drop):
+            del ops[i]
+            observed = [j - 1 if j > i else j for j in observed]
+            for o in ops:
+                if o.get("twin") is not None and o["twin"] > i:
+                    o["twin"] -= 1
         for o in ops:
-            if o["op"] == "call":
+            if o["op"] in ("call", "transform", "apply_mask", "body_coil"):
                 o["kseed"] = kseed
     return {"confs": confs, "ops": ops, "shape": shape, "seed": seed, "seedkind": seedkind, "fresh": obs_kind == "fresh",
             "kseed": kseed,
